@@ -147,7 +147,7 @@ pub struct RCase {
     pub content: Content,
     pub budget: u32,
     pub updates: Vec<Size>,
-    pub out_len: u16,
+    pub out_len: u32,
 }
 
 pub fn check_ref(c: &RCase) -> Result<(), String> {
@@ -203,6 +203,8 @@ pub fn classify_ref(c: &RCase) -> Classes {
         .tag(c.out_len % 4 != 0, "out_len%4!=0")
         .tag(c.out_len % 64 != 0, "out_len%64!=0")
         .tag(c.out_len == 0, "out_len=0")
+        .tag(c.out_len > 16_384, "out_len>2^8-blocks")
+        .tag(c.out_len > (1 << 22), "out_len>2^16-blocks")
         .tag(len > 16 * 1024, "input>16chunks")
         .tag(len == 0, "empty-input")
 }
@@ -210,7 +212,14 @@ pub fn classify_ref(c: &RCase) -> Classes {
 fn ref_strategy(tier: Tier) -> BoxedStrategy<RCase> {
     let budget = tier.pick(64 * 1024u32, 2 * 1024 * 1024u32);
     let max_abs = tier.pick(20_000u32, 300_000u32);
-    (gen::mode3(), gen::content(), prop::collection::vec(hist::size(max_abs), 0..=20), prop_oneof![2 => 0u16..=3000, 1 => crate::gen::select(vec![0u16, 1, 31, 32, 33, 63, 64, 65, 128, 131])])
+    (gen::mode3(), gen::content(), prop::collection::vec(hist::size(max_abs), 0..=20), prop_oneof![
+            40 => 0u32..=3000,
+            20 => crate::gen::select(vec![0u32, 1, 31, 32, 33, 63, 64, 65, 128, 131]),
+            // output block counters of narrower types wrap after 2^8 blocks (16 KiB) and 2^16 blocks (4 MiB)
+            4 => 16_000u32..=17_000,
+            2 => 0u32..=200_000,
+            1 => (1u32 << 22) - 100..=(1u32 << 22) + 300,
+        ])
         .prop_map(move |(mode, content, updates, out_len)| RCase { mode, content, budget, updates, out_len })
         .boxed()
 }
@@ -229,7 +238,7 @@ pub fn subs() -> Vec<Box<dyn DynSub>> {
         }),
         Box::new(PropSub::<RCase> {
             name: "refimpl-histories",
-            rule: "proptest: reference_impl::Hasher in the three modes, 0-20 updates with sizes resolved against the running total (<= 64 KiB quick, 2 MiB thorough), output length 0..3000 incl. non-multiples of 4 and 64, intermediate finalize calls; oracle = spec xof; the optimized crate is compared on the same history; non-trivial = >=2 updates crossing a chunk boundary and output > 64 bytes",
+            rule: "proptest: reference_impl::Hasher in the three modes, 0-20 updates with sizes resolved against the running total (<= 64 KiB quick, 2 MiB thorough), output length 0..3000 incl. non-multiples of 4 and 64, now and then ~16 KiB, <= 200 KB or 4 MiB +-300 bytes (output block counters of 8/16 bits would wrap there), intermediate finalize calls; oracle = spec xof; the optimized crate is compared on the same history; non-trivial = >=2 updates crossing a chunk boundary and output > 64 bytes",
             cases: (12_000, 100_000),
             strategy: ref_strategy,
             classify: classify_ref,
